@@ -64,12 +64,18 @@ Definition ok_C16 (o : top) (r : option (list Z)) : bool :=
         match r with Some [t] => t =? (s * NS_PER_S + n) * FRAC | _ => false end
       else true
   | AddSub t d =>
-      if in_ptp t && in_dur d && (0 <=? t + d) then
-        match r with Some [t1; t2] => (t1 =? t + d) && (t2 =? t) | _ => false end
+      if in_ptp t && in_dur d then
+        if 0 <=? t + d then
+          match r with Some [t1; t2] => (t1 =? t + d) && (t2 =? t) | _ => false end
+        else  (* not representable: must clamp to 0, never wrap around *)
+          match r with Some [t1; t2] => (t1 =? 0) | _ => false end
       else true
   | SubAdd t d =>
-      if in_ptp t && in_dur d && (0 <=? t - d) then
-        match r with Some [t1; t2] => (t1 =? t - d) && (t2 =? t) | _ => false end
+      if in_ptp t && in_dur d then
+        if 0 <=? t - d then
+          match r with Some [t1; t2] => (t1 =? t - d) && (t2 =? t) | _ => false end
+        else
+          match r with Some [t1; t2] => (t1 =? 0) | _ => false end
       else true
   | Diff a b =>
       if in_ptp a && in_ptp b then
